@@ -151,7 +151,7 @@ def validate(cases, work, relax="none", cap=8, tag=""):
 def classify(case, work):
     """which discipline does a wrongly ACCEPTED program break?  C05 if it is derivable without the substructural discipline, C06 if it is without
     the declaration of independence, else C07"""
-    for relax, cls in (("sub", "C05"), ("indep", "C06")):
+    for relax, cls in (("wf", "C10"), ("sub", "C05"), ("indep", "C06")):
         f, e, _ = validate([case], work, relax=relax, tag="cls")
         if not f and not e:
             return cls
@@ -274,7 +274,8 @@ def report(v, pid, st):
             continue
         if f["verdict"] == "accept":
             what = "accepted, but it has no derivation in the type system (Typing.tla)%s: %s" % (
-                {"C05": "; it has one once the substructural discipline is dropped", "C06": "; it has one once the declaration of independence is dropped", "C07": ""}[pid],
+                {"C05": "; it has one once the substructural discipline is dropped", "C06": "; it has one once the declaration of independence is dropped", "C07": "",
+                 "C10": "; it has one once annotation types need not be well-formed"}[pid],
                 f["text"].replace("\n", " ; ")[:400])
         else:
             what = "rejected (%s), but it is derivable in the type system (Typing.tla): %s" % (f["detail"][:160], f["text"].replace("\n", " ; ")[:400])
